@@ -331,6 +331,12 @@ func (s *transactionStore) Watch(ctx context.Context, ch chan<- configapi.Transa
 				delete(s.watchers, id)
 			}
 			s.mu.Unlock()
+			// The event dispatcher may already be sending to this watcher: keep draining its channel on every exit
+			// path, or the dispatcher - and with it every other watcher of the store - blocks for ever.
+			go func() {
+				for range eventCh {
+				}
+			}()
 		}()
 
 		if options.replay {
@@ -402,10 +408,6 @@ func (s *transactionStore) Watch(ctx context.Context, ch chan<- configapi.Transa
 				}
 			case <-ctx.Done():
 				close(ch)
-				go func() {
-					for range eventCh {
-					}
-				}()
 				return
 			}
 		}
